@@ -549,9 +549,9 @@ def gen_form(repo, res):
     types = ["cell", "exterior_facet", "interior_facet", "vertex", "ridge"]
     samples = {
         "prism form: unsorted ids, default integrals, two facet types per group": Node(
-            "FormIR", id=0, name="form_abc", signature="sig", rank=2, num_coefficients=2, name_from_uflfile="a", original_coefficient_positions=[0, 2],
-            coefficient_names=["f", "g"], num_constants=2, constant_ranks=[0, 2], constant_shapes=[[], [2, 3]], constant_names=["c0", "c1"],
-            finite_element_hashes=[11, None],
+            "FormIR", id=0, name="form_abc", signature="sig", rank=2, num_coefficients=3, name_from_uflfile="a", original_coefficient_positions=[0, 2, 3],
+            coefficient_names=["f", "g", "h"], num_constants=2, constant_ranks=[0, 2], constant_shapes=[[], [2, 3]], constant_names=["c0", "c1"],
+            finite_element_hashes=[11, None, 13, 14, 15],
             integral_names={"cell": ["ic_b", "ic_a"], "exterior_facet": ["ie_7", "ie_3", "ie_o"], "interior_facet": [], "vertex": ["iv"], "ridge": []},
             integral_domains={"cell": [[dom("prism")], [dom("prism")]], "exterior_facet": [[dom("triangle"), dom("quadrilateral")]] * 3, "interior_facet": [],
                               "vertex": [[dom("point")]], "ridge": []},
@@ -564,8 +564,8 @@ def gen_form(repo, res):
             subdomain_ids={"cell": [], "exterior_facet": [], "interior_facet": [2, 1, 9], "vertex": [], "ridge": [4]}),
     }
     samples["two meshes: one subdomain id used by two integral groups of a type"] = Node(
-        "FormIR", id=2, name="form_r", signature="s3", rank=1, num_coefficients=1, name_from_uflfile="L", original_coefficient_positions=[1],
-        coefficient_names=["f"], num_constants=0, constant_ranks=[], constant_shapes=[], constant_names=[], finite_element_hashes=[7],
+        "FormIR", id=2, name="form_r", signature="s3", rank=1, num_coefficients=2, name_from_uflfile="L", original_coefficient_positions=[1, 4],
+        coefficient_names=["f", "k"], num_constants=0, constant_ranks=[], constant_shapes=[], constant_names=[], finite_element_hashes=[7, 8, 9],
         integral_names={"cell": ["ic_m2_1", "ic_m1_o", "ic_m1_1"], "exterior_facet": [], "interior_facet": [], "vertex": [], "ridge": []},
         integral_domains={"cell": [[dom("triangle")], [dom("triangle")], [dom("triangle")]], "exterior_facet": [], "interior_facet": [], "vertex": [], "ridge": []},
         subdomain_ids={"cell": [1, -1, 1], "exterior_facet": [], "interior_facet": [], "vertex": [], "ridge": []})
